@@ -144,11 +144,16 @@ theorem step_space {inp p s} (h : InpAt inp p (32 :: s)) (w le its) :
   simp [isSpaceEOL, isSpace, ignore_L]
 
 /-- the Error item `lexInsideTag` sends at the end of the input ("unclosed tag", at `tagStart = 0`;
-    the text of the message is not modelled) -/
-def errItem : Item := { typ := .tError, pos := 0, val := [] }
+    the model keeps the CLASS of the message in `val`, not its text: `clsTag`) -/
+def errItem : Item := { typ := .tError, pos := 0, val := [clsTag] }
 
+theorem errItem_typ : errItem.typ = .tError := rfl
+
+/-- the end of the input: the only step of the walk that goes through an error exit of the lexer —
+    `errorfAt l l.tagStart clsTag` with `tagStart = 0` -/
 theorem step_eof {inp p} (h : InpAt inp p []) (w le its) :
-    step .insideTag (L inp p p w le its) = some (none, { L inp p p 0 le its with items := its.push errItem }) := by
+    ∃ l', step .insideTag (L inp p p w le its) = some (none, l') ∧ l'.items = its.push errItem := by
+  refine ⟨{ L inp p p 0 le its with items := its.push errItem }, ?_, rfl⟩
   simp only [step, lexInsideTag, next_eof_L h, Option.bind_eq_bind, Option.bind_some]
   simp [isSpaceEOL, isSpace, isEndOfLine, lexInsideTagMid, lexInsideTagRest, eof, errorfAt, L, errItem]
 
@@ -175,7 +180,7 @@ def emitAll : Nat → List Piece → List Item
   | p, .sp :: r => emitAll (p + 1) r
   | p, .tok t :: r => itemOf t (p + t.val.length) :: emitAll (p + t.val.length) r
 
-theorem emitAll_tk : (p : Nat) → (ps : List Piece) → (emitAll p ps).map Item.tk = unsp ps ++ [⟨.tError, []⟩]
+theorem emitAll_tk : (p : Nat) → (ps : List Piece) → (emitAll p ps).map Item.tk = unsp ps ++ [errItem.tk]
   | _, [] => rfl
   | p, .sp :: r => by simp only [emitAll, unsp]; exact emitAll_tk (p + 1) r
   | p, .tok t :: r => by
@@ -192,7 +197,8 @@ theorem lex_pieces {inp : Array UInt8} : ∀ (ps : List Piece) (p : Nat) (w : In
     run F .insideTag (L inp p p w le its) = .items (its.toList ++ emitAll p ps)
   | [], p, w, le, its, F, h, _, _, hF => by
     obtain ⟨n, rfl⟩ : ∃ n, F = n + 1 := ⟨F - 1, by omega⟩
-    rw [run_stop (step_eof (by simpa [spell] using h) w le its)]
+    obtain ⟨l', hs, hi⟩ := step_eof (inp := inp) (p := p) (by simpa [spell] using h) w le its
+    rw [run_stop hs, hi]
     simp [emitAll]
   | .sp :: r, p, w, le, its, F, h, ha, hc, hF => by
     obtain ⟨n, rfl⟩ : ∃ n, F = n + 1 := ⟨F - 1, by simp at hF; omega⟩
